@@ -280,7 +280,8 @@ PROPS["C08"]["harnesses"] = PROPS["C08"]["harnesses"] + [MLOOP, MSUBMIT[2]]
 C08_ROUTING = ("c14_market_event_new_asset0_off", "c14_market_event_cancel_asset1_off", "c14_market_event_modify_asset1_off")
 PROPS["C08"]["stubs"] = PROPS["C08"]["stubs"] + ["Market::process_event -> Market::verif_log_event in market_env_step_loop_* (fixed-size log)"]
 
-PROPS["C13"]["harnesses"] = PROPS["C13"]["harnesses"] + [de("env_toggle_m2", "Env::enable_trading / disable_trading set the wrapped book's flag and change nothing else", covers=["cover.re_enabled"], timeout=600)]
+PROPS["C13"]["harnesses"] = PROPS["C13"]["harnesses"] + [de("env_toggle_m2", "Env::enable_trading / disable_trading set the wrapped book's flag and change nothing else", covers=["cover.re_enabled"], timeout=600),
+                                                         de("market_env_toggle_m1", "MarketEnv::enable_trading / disable_trading set every asset's flag and change nothing else", covers=["cover.re_enabled"], timeout=600)]
 
 PROPS["C11"] = {
     "level": "model_checking", "functions": ["Env::<L>::step", "Level2DataRecords::{new,append_record}", "Env::{get_prices,get_volumes,get_trade_vols,get_level_2_data_history}"] + STEP_FUNCS[3:],
